@@ -182,6 +182,19 @@ fixed("C18", "C18:extra-bytes-undecodable-in-stream-encoding", "ea06291",
       [{"kind": "parse", "extra": "a\udce1", "csi": "\x1b[", "row": 3, "col": 7, "trailing": "", "fail_at": [],
         "callback": True, "encoding": "utf-8", "errors": "surrogateescape"}])
 
+fixed("C14", "C14:unusual-value-accepted-with-wrong-effect", "3e6bbf0",
+      "a style given a falsy value that is not False (bold=0, bold=None) was displayed as ON while repr/shared_atts said off",
+      [{"kind": "lenient", "args": [], "kwargs": {"bold": 0}, "meaning": {"bold": False}},
+       {"kind": "lenient", "args": [], "kwargs": {"bold": None}, "meaning": {"bold": False}}])
+fixed("C14", "C14:invalid-accepted", "6d4819a",
+      "a style named positionally (or through style=) and also keyed False was silently resolved to True",
+      [{"kind": "invalid", "args": ["bold"], "kwargs": {"bold": False}},
+       {"kind": "invalid", "args": [], "kwargs": {"style": "underline", "underline": False}}])
+fixed("C14", "C14:invalid-other-exception", "6d4819a",
+      "an unhashable colour value raised TypeError, a float one was accepted and rendered as ESC[31.0m",
+      [{"kind": "invalid", "args": [], "kwargs": {"fg": [31]}},
+       {"kind": "lenient", "args": [], "kwargs": {"fg": 31.0}, "meaning": {"fg": "red"}}])
+
 known("C03", "C03:prefix-then-undecodable-byte",
       "get_key raises UnicodeDecodeError for a table-sequence prefix (e.g. ESC) followed by a byte >= 0x80 "
       "that does not decode: ESC + any 8-bit byte under ascii, ESC + a UTF-8 lead/continuation byte under utf-8",
